@@ -92,6 +92,7 @@ class Tree:
         self.touched = []  # every path handed to the store API (for confinement)
         self.tmpfiles = {}
         self.real_messages = False  # __getitem__ parses the content with the stdlib email package
+        self.yield_points = False  # async store/db calls yield to the event loop once (scheduling points, C10)
 
     # durable-effect accounting -------------------------------------------
     def effect(self, what):
@@ -116,14 +117,22 @@ class Tree:
             return p
 
     def resolve(self, path):
+        """Follow symbolic links component by component (as the kernel does)."""
         p = self.norm(path)
-        d = self.dirs.get(p)
-        seen = 0
-        while d is not None and d.is_link_to is not None and seen < 5:
-            p = d.is_link_to
-            d = self.dirs.get(p)
-            seen += 1
-        return p, d
+        for _ in range(8):
+            parts = p.split("/")
+            cur = ""
+            changed = False
+            for i in range(1, len(parts)):
+                cur = cur + "/" + parts[i]
+                d = self.dirs.get(cur)
+                if d is not None and d.is_link_to is not None:
+                    p = d.is_link_to + "".join("/" + x for x in parts[i + 1 :])
+                    changed = True
+                    break
+            if not changed:
+                break
+        return p, self.dirs.get(p)
 
     def mkdir(self, path):
         p = self.norm(path)
@@ -153,6 +162,14 @@ class Tree:
 
 
 TREE = Tree()
+
+
+async def maybe_yield():
+    """One scheduling point (what a real aiofiles / aiosqlite call is) when TREE.yield_points is on."""
+    if TREE.yield_points:
+        import asyncio
+
+        await asyncio.sleep(0)
 
 
 class FakeMsg:
@@ -266,6 +283,7 @@ class FakeMH:
             pass
 
     async def aremove(self, key):
+        await maybe_yield()
         self.remove(key)
 
     async def aclear(self):
@@ -390,6 +408,7 @@ class FakeMH:
         rp, d = TREE.resolve(self._path)
         if d is None:
             raise NoSuchMailboxError(self._path)
+        await maybe_yield()
         yield
 
 
@@ -519,6 +538,7 @@ class AioFilesShim:
 
 
 async def fake_utime(path, times):
+    await maybe_yield()
     d, b = _split(path)
     TREE.touched.append(("utime", TREE.norm(path)))
     h = FakeMH.__new__(FakeMH)
